@@ -22,7 +22,17 @@ pub fn consts() {
 pub fn c03(seed: u64, n: usize) {
     let mut r = Rng::new(seed ^ 0xC03);
     for i in 0..n {
-        let (rfam, p) = gen_params(&mut r);
+        let (mut rfam, mut p) = gen_params(&mut r);
+        // 5-DOF declarations: the parameter loader blocks J6 with a zero sign correction, hand-made sets may keep +-1
+        // (J6 then carries a fixed tool mounting rotation); forward and forward_with_joint_poses must agree in all of them
+        if r.chance(0.15) {
+            p.dof = 5;
+            p.sign_corrections[5] = *r.pick(&[0, 0, 0, 1, -1]);
+            rfam.push_str(if p.sign_corrections[5] == 0 { "/dof5-sign6=0" } else { "/dof5-sign6!=0" });
+        } else if r.chance(0.04) {
+            p.sign_corrections[5] = 0;
+            rfam.push_str("/dof6-sign6=0");
+        }
         let span = *r.pick(&[PI, PI, 2.0 * PI, 10.0, 100.0, 1e4]);
         let q = rand_joints(&mut r, span);
         let mut ks = KSpec::bare(p);
@@ -87,6 +97,12 @@ pub fn c02(seed: u64, n: usize) {
         if done % 3 == 0 {
             let pose = ks.core().forward(&q);
             emit_h_iki("C02", &rfam, &p, &pose);
+        }
+        // the position-only solver is a hand-duplicated copy of the same formulas: the originating J1..J5 come back
+        if done % 4 == 1 {
+            let pose = ks.core().forward(&q);
+            let j6 = *r.pick(&[0.0, q[5], 1.0]);
+            emit_inv5("C02", &format!("{}/5dof-entry", rfam), &ks, &pose, j6, Some(&q));
         }
     }
 }
@@ -314,6 +330,8 @@ pub fn c09(seed: u64, n: usize) {
         let tr = nalgebra::Vector3::new(r.range(-2.0, 2.0), r.range(-2.0, 2.0), r.range(-2.0, 2.0));
         emit_gantry("C09", &format!("{}/gantry", rfam), &ks, &base, &tr, &q);
     }
+    // a robot with shape is one more wrapper: base * robot * tool through both constructors (new, with_safety)
+    crate::props_coll::kwsd_cases("C09", &mut r, (n / 25).max(24));
 }
 
 /// C16: parallelogram coupling, all ordered index pairs, nesting with tool/base
@@ -349,6 +367,20 @@ pub fn c16(seed: u64, n: usize) {
             if only_para {
                 emit_inv5("C16", &fam, &ks, &pose, q[5], Some(&q));
                 emit_invc5("C16", &format!("{}/prev-{}", fam, pf), &ks, &pose, &prev, Some(&q));
+            }
+            if i % 4 != 3 {
+                // one coupling in the stack: the joints the inner robot sees are q with q[c] += s * q[d]
+                let mut inner = q; inner[c] += s * q[d];
+                // the previous vector solves the pose on the INNER robot (taken from the bare model), not on the wrapper
+                emit_invc("C16", &format!("{}/prev-inner-solution", fam), &ks, &pose, &inner, Some(&q));
+                // inside the wrist-singularity band but not at zero, previous = the answer: the continuation appends a ninth
+                // answer, which has to be de-coupled like the other eight
+                let mut th = rand_joints(&mut r, 2.0);
+                th[4] = *r.pick(&[5e-5, -5e-5, 1e-4, -2e-5]);
+                let inner2 = joints_of_theta(&p, &th);
+                let mut q2 = inner2; q2[c] = inner2[c] - s * inner2[d];
+                let pose2 = k.forward(&q2);
+                emit_invc("C16", &format!("{}/in-singular-band/prev-origin", fam), &ks, &pose2, &q2, Some(&q2));
             }
         }
     }
